@@ -319,6 +319,16 @@ def Node.approve (n : Node) (h : Hash) (inv : Invoice) (now : Nat) : Node × ARe
                               payments := upd n.payments h (some ((n.payments h).getD Payment.new)),
                               vc := { n.vc with mem := v } }, .added)
 
+/-- `Approve::handle_proposed_invoice/keysend` with an approver that says no (`NegativeApprover`, or a user
+    declining): the `has_payment` shortcut still answers for a hash the node already has (same invoice =
+    `Ok(true)`, different = `Err`); otherwise `Ok(false)` and the node is not touched at all. With an approver
+    that says yes the same shortcut runs first and then `add_invoice`/`add_keysend` = `Node.approve`, whose own
+    first branch gives the same answers. -/
+def Node.proposeDeclined (n : Node) (h : Hash) (inv : Invoice) : ARes :=
+  match n.invoices h with
+  | some old => if old.id = inv.id then .same else .different
+  | none => .declined
+
 /-- `htlc_fulfilled` (no issued invoices, `enforce_balance = false`): record the preimage. -/
 def Node.fulfill (n : Node) (h : Hash) : Node × Bool :=
   match n.payments h with
@@ -382,6 +392,7 @@ inductive Op
   | revoke (c : Chan)
   | cpRevoke (c : Chan)
   | approve (h : Hash) (inv : Invoice) (now : Nat)
+  | decline (h : Hash) (inv : Invoice)
   | fulfill (h : Hash)
   | heartbeat (now : Nat)
   | restart
@@ -391,6 +402,7 @@ def Op.mentioned : Op → List Hash
   | .cpSign _ _ i => hashes i.inc ++ hashes i.out
   | .hValidate _ _ i => hashes i.inc ++ hashes i.out
   | .approve h _ _ => [h]
+  | .decline h _ => [h]
   | .fulfill h => [h]
   | _ => []
 
@@ -406,6 +418,7 @@ def Node.exec (n : Node) : Op → Option (Node × Bool)
   | .approve h inv now => match n.approve h inv now with
       | (n', .added) => some (n', true) | (_, .same) => some (n, true) | (_, .different) => some (n, false)
       | (n', .declined) => some (n', false) | (_, .panic) => none
+  | .decline h inv => some (n, n.proposeDeclined h inv == .same)
   | .fulfill h => some ((n.fulfill h).1, true)
   | .heartbeat now => (n.heartbeat now).map (fun n' => (n', true))
   | .restart => some (n.restart, true)
